@@ -334,6 +334,81 @@ def r17_14(run, model):
     run.floor("functions recording type-parameter bounds", n, 2)
 
 
+def r17_15(run, model):
+    run.rule("R17.15", "every call form finds the same implementations: wherever the typer searches for an implementation of a trait for a "
+                       "type (the solver of `Tr::m(x, ..)`, the visibility test behind `x.m(..)` through a bound and behind the coercion to "
+                       "`dyn Tr`), it asks the current package and every package in `deps` - an impl may live in the trait's package, in "
+                       "the type's package or, for builtin types, only in the trait's")
+    n = 0
+    for rel in (UNI, CHECK, "crates/compiler/src/typer/toplevel.rs", "crates/compiler/src/typer/util.rs"):
+        for f in model.fns(rel):
+            if f.body is None:
+                continue
+            looks = [c for c in S.walk(f.body) if c["k"] == "MethodCall" and (c["method"] == "get_trait_impl" or
+                     (c["method"] in ("contains_key", "get") and c["recv"]["k"] == "Field" and c["recv"].get("member") == "trait_impls"))]
+            if not looks or re.search(r"trait_impls\.(insert|entry)\(|current_mut\(\)", S.norm_ws(run.facts.text(rel, f.body["sp"]))):
+                continue      # a function that defines implementations tests its own package for duplicates (C16 R16.3 covers the others)
+            gen = [p["pat"]["name"] for p in f.params() if not p["self"] and p["pat"]["k"] == "PIdent" and "PackageTypeEnv" in (p["ty"] or "")]
+            if not gen:
+                continue
+            n += 1
+            par = S.Parents(f.body)
+
+            def over_deps(c):
+                for a in par.ancestors(c):
+                    if a["k"] == "For" and re.search(r"\.deps\.(values|iter)\(\)", S.norm_ws(run.facts.text(rel, a["iter"]["sp"]))):
+                        return True
+                    if a["k"] == "MethodCall" and a["method"] in ("any", "find_map", "filter_map", "for_each", "flat_map", "find") and \
+                            re.search(r"\.deps\.(values|iter)\(\)", S.norm_ws(run.facts.text(rel, a["recv"]["sp"]))):
+                        return True
+                return False
+            cur = [c for c in looks if re.search(r"\.current\(\)", S.norm_ws(run.facts.text(rel, c["recv"]["sp"])))]
+            deps = [c for c in looks if over_deps(c)]
+            run.ob("R17.15", f"{f.name}|implementations are sought in the current package and in every dependency", bool(cur) and bool(deps), site(rel, looks[0]["sp"]),
+                   f"{len(looks)} lookup(s): {len(cur)} on current(), {len(deps)} inside an iteration over all of deps",
+                   witness="impl Show for int32 in TraitPkg: TraitPkg::Show::show_with(7, ..) from Main fails with `No instance found`, while x.m(a) "
+                           "through T: TraitPkg::Show and the call on 7 coerced to dyn are accepted")
+    run.floor("typer functions searching trait implementations across packages", n, 2)
+
+
+def r17_16(run, model):
+    run.rule("R17.16", "a trait is known by its resolved name: every use of resolve_trait_name binds the resolved name it returns (no `.is_some()`, "
+                       "no `_` in its place) - what the typer records for bounds, impls and dyn types is compared as text with resolved "
+                       "names elsewhere (`in_bounds`), so a spelling kept as written (`Show` inside package Lib) never matches `Lib::Show`")
+    n = 0
+    for rel in (CHECK, UNI, "crates/compiler/src/typer/toplevel.rs", "crates/compiler/src/typer/util.rs", "crates/compiler/src/typer/tast_builder.rs"):
+        for f in model.fns(rel):
+            if f.body is None or f.name == "resolve_trait_name":
+                continue
+            par = None
+            k_ = 0
+            for c in S.walk(f.body):
+                if c["k"] != "Call" or S.callee_name(c) != "resolve_trait_name":
+                    continue
+                if par is None:
+                    par = S.Parents(f.body)
+                n += 1
+                k_ += 1
+                p_ = par.parent(c)
+                ok, why = True, "result handed on"
+                if p_ is not None and p_["k"] == "MethodCall" and p_["recv"] is c and p_["method"] in ("is_some", "is_none", "is_ok", "is_err"):
+                    ok, why = False, f"reduced to a boolean with .{p_['method']}()"
+                elif p_ is not None and p_["k"] in ("Let", "Local"):
+                    tup = [x for x in S.walk(p_["pat"]) if x["k"] == "PTuple"]
+                    first = tup[0]["elems"][0] if tup and tup[0]["elems"] else None
+                    if first is None:
+                        ok, why = (p_["pat"]["k"] == "PIdent"), "bound whole"
+                    elif first["k"] != "PIdent" or first["name"].startswith("_"):
+                        ok, why = False, "the resolved name is discarded by the pattern"
+                    else:
+                        used = sum(1 for x in S.walk(f.body) if x["k"] == "Path" and len(x["segs"]) == 1 and x["segs"][0] == first["name"])
+                        ok, why = used > 0, f"resolved name bound to `{first['name']}`, used {used} time(s)"
+                run.ob("R17.16", f"{f.name}|use #{k_} of resolve_trait_name keeps the resolved name", ok, site(rel, c["sp"]), why,
+                       witness="package Lib: fn tag_path[T: Show](x: T) { Show::tag(x, 1) } fails with `Type parameter T is not constrained by trait "
+                               "Lib::Show` while x.tag(1) through the same bound is accepted")
+    run.floor("uses of resolve_trait_name", n, 9)
+
+
 def run(run, model):
     run.try_rule(r17_1, model)
     run.try_rule(r17_2, model)
@@ -361,6 +436,8 @@ def run(run, model):
     run.rule("R17.6", "a coercion to dyn is recorded once per expression: call arguments are type-checked once (shared with C03 R03.11); a second "
                       "pass pushes the ToDyn coercion again and the value is wrapped twice")
     run.try_rule(c03.r03_11, model)
+    run.try_rule(r17_15, model)
+    run.try_rule(r17_16, model)
     from rules import c09
     run.rule("R17.5", "the call forms are emitted alike in effect position: static calls (ECall) and dyn calls (EDynCall) both become a Go "
                       "statement when their value is unused (shared with C09 R09.6)")
